@@ -538,10 +538,29 @@ static BG_THREADS_SEEN: AtomicUsize = AtomicUsize::new(0);
 /// does not jump while one is running, so the stamps of its system calls are exact.
 static VBUSY: AtomicI64 = AtomicI64::new(0);
 
+/// A background operation has finished but the wake-up of the worker that awaits it may still be
+/// in flight: virtual time waits for that wake-up (or 200 ms real time, whichever comes first).
+static VWAKE: AtomicI64 = AtomicI64::new(0);
+static VWAKE_SINCE_NS: AtomicI64 = AtomicI64::new(0);
+/// CLOCK_MONOTONIC at `vtime_enable`: the worker's clock is real elapsed time plus the offset.
+static VT0_NS: AtomicI64 = AtomicI64::new(0);
+
+fn mono_ns() -> i64 {
+    unsafe {
+        let mut ts: libc::timespec = std::mem::zeroed();
+        libc::syscall(libc::SYS_clock_gettime, libc::CLOCK_MONOTONIC, &mut ts);
+        ts.tv_sec as i64 * 1_000_000_000 + ts.tv_nsec as i64
+    }
+}
+
 pub fn vtime_busy(delta: i64) {
     let v = VBUSY.fetch_add(delta, Ordering::SeqCst) + delta;
     if v < 0 {
         VBUSY.store(0, Ordering::SeqCst);
+    }
+    if delta < 0 {
+        VWAKE_SINCE_NS.store(mono_ns(), Ordering::SeqCst);
+        VWAKE.fetch_add(1, Ordering::SeqCst);
     }
 }
 
@@ -551,9 +570,15 @@ pub fn vtime_enable(on: bool) {
     VHOLD.store(false, Ordering::SeqCst);
     VLIMIT_NS.store(i64::MAX, Ordering::SeqCst);
     VBUSY.store(0, Ordering::SeqCst);
+    VWAKE.store(0, Ordering::SeqCst);
+    VT0_NS.store(mono_ns(), Ordering::SeqCst);
 }
+/// The worker's clock in ms since `vtime_enable`: real elapsed time plus the virtual offset.
 pub fn vnow_ms() -> i64 {
-    VOFF_NS.load(Ordering::SeqCst) / 1_000_000
+    vnow_ns() / 1_000_000
+}
+fn vnow_ns() -> i64 {
+    mono_ns() - VT0_NS.load(Ordering::SeqCst) + VOFF_NS.load(Ordering::SeqCst)
 }
 pub fn vtime_hold(h: bool) {
     VHOLD.store(h, Ordering::SeqCst);
@@ -632,23 +657,32 @@ pub unsafe extern "C" fn epoll_wait(ep: c_int, evs: *mut libc::epoll_event, max:
         let grace = VGRACE_MS.load(Ordering::SeqCst).min(timeout as i64).max(0) as c_int;
         let r = libc::syscall(libc::SYS_epoll_wait, ep, evs, max, grace) as c_int;
         if r != 0 {
+            // any wake-up lets tokio collect every finished blocking operation
+            VWAKE.store(0, Ordering::SeqCst);
             return r;
         }
         if VHOLD.load(Ordering::SeqCst) || VBUSY.load(Ordering::SeqCst) > 0 {
             continue;
         }
-        let now = VOFF_NS.load(Ordering::SeqCst);
-        let want = now.saturating_add(timeout as i64 * 1_000_000);
+        if VWAKE.load(Ordering::SeqCst) > 0 {
+            if mono_ns() - VWAKE_SINCE_NS.load(Ordering::SeqCst) < 200_000_000 {
+                continue;
+            }
+            VWAKE.store(0, Ordering::SeqCst);
+        }
+        let now = vnow_ns();
+        let add = timeout as i64 * 1_000_000;
+        let want = now.saturating_add(add);
         let lim = VLIMIT_NS.load(Ordering::SeqCst);
         if want > lim {
             // advance up to the limit, then keep polling in real time
             if now < lim {
-                VOFF_NS.store(lim, Ordering::SeqCst);
+                VOFF_NS.fetch_add(lim - now, Ordering::SeqCst);
                 return 0;
             }
             continue;
         }
-        VOFF_NS.store(want, Ordering::SeqCst);
+        VOFF_NS.fetch_add(add, Ordering::SeqCst);
         return 0;
     }
 }
